@@ -296,6 +296,20 @@ func tEq(a, b *Term) *Term {
 			}
 		}
 	}
+	if a.S.K == 'V' && a.S == b.S {
+		// x + c1 == x + c2  <=>  c1 == c2 ;  x == x + c  <=>  c == 0   (modular arithmetic)
+		base := func(t *Term) (*Term, uint64) {
+			if t.Op == "bvadd" && t.Args[1].IsConst() {
+				return t.Args[0], t.Args[1].U
+			}
+			return t, 0
+		}
+		xa, ca := base(a)
+		xb, cb := base(b)
+		if xa == xb {
+			return tBool(ca == cb)
+		}
+	}
 	if a.S != b.S {
 		panic(fmt.Sprintf("tEq: sort mismatch %v %v (%s vs %s)", a.S, b.S, a.smtDebug(), b.smtDebug()))
 	}
